@@ -144,9 +144,14 @@ impl Server {
                 .env("RUST_LOG", rust_log)
                 .env("RUST_LOG_FORMAT", "no-ansi,no-time")
                 .env_remove("RESOLVED_VERIF_GATE")
-                .stdin(Stdio::null())
-                .stdout(Stdio::piped())
-                .stderr(Stdio::piped());
+                .stdin(Stdio::null());
+            if rust_log == "trace" {
+                // rendered, then discarded: a pipe that the harness drains more slowly
+                // than a trace-level server fills it would throttle the server
+                cmd.stdout(Stdio::null()).stderr(Stdio::null());
+            } else {
+                cmd.stdout(Stdio::piped()).stderr(Stdio::piped());
+            }
             for (k, v) in envs {
                 cmd.env(k, v);
             }
@@ -298,6 +303,11 @@ pub struct BatchObs {
 /// `SENTINEL_LO`) in chunks of `window`, each chunk followed by a sentinel query; wait for the
 /// sentinel and for one reply to every message with `expect[i]`.  After the last chunk a
 /// final sentinel and a grace period establish "no reply" for everything else.
+/// How long a batch waits for its sentinel's reply.  A responsive server answers in
+/// milliseconds; the limit only decides when a server counts as slow or gone, so it is
+/// generous (a loaded machine, a server that logs at trace level).
+const SENTINEL_WAIT_MS: u64 = 6000;
+
 pub fn udp_batch(addr: SocketAddr, msgs: &[Vec<u8>], expect: &[bool], window: usize, grace_ms: u64) -> BatchObs {
     udp_batch_sem(addr, msgs, expect, window, grace_ms, None)
 }
@@ -405,7 +415,7 @@ pub fn udp_batch_sem(addr: SocketAddr, msgs: &[Vec<u8>], expect: &[bool], window
             sid,
             &mut need,
             &mut seen,
-            Instant::now() + Duration::from_millis(1500),
+            Instant::now() + Duration::from_millis(SENTINEL_WAIT_MS),
             false,
         );
         if let Some(sm) = sem {
@@ -430,7 +440,7 @@ pub fn udp_batch_sem(addr: SocketAddr, msgs: &[Vec<u8>], expect: &[bool], window
                         sid2,
                         &mut zero,
                         &mut s2,
-                        Instant::now() + Duration::from_millis(1500),
+                        Instant::now() + Duration::from_millis(SENTINEL_WAIT_MS),
                         false,
                     );
                     if s2 {
@@ -459,12 +469,16 @@ pub fn udp_batch_sem(addr: SocketAddr, msgs: &[Vec<u8>], expect: &[bool], window
                         sid3,
                         &mut one,
                         &mut s3,
-                        Instant::now() + Duration::from_millis(1500),
+                        Instant::now() + Duration::from_millis(SENTINEL_WAIT_MS),
                         false,
                     );
                     if !obs.replies[i].is_empty() {
                         obs.retried += 1;
                     }
+                    // the message went out twice: a late reply to the first copy next to
+                    // the reply to the second is not a duplicate reply of the server
+                    // (duplicates are judged on the messages that were sent once)
+                    obs.replies[i].truncate(1);
                 }
             }
         }
@@ -1259,6 +1273,11 @@ fn read_all(s: &mut TcpStream, out: &mut Vec<u8>, total: Duration, reset: &mut b
     }
 }
 
+/// How long a connection is read for the reply (the read ends as soon as the server
+/// closes, which it does after one message): generous, so that a slow server - a loaded
+/// machine, trace-level logging of a 16 KiB message - is not mistaken for a silent one.
+const TCP_REPLY_WAIT: Duration = Duration::from_secs(15);
+
 pub fn tcp_exchange(addr: SocketAddr, segments: &[Vec<u8>], gap_ms: u64, mode: CloseMode) -> TcpObs {
     let mut obs = TcpObs::default();
     let mut s = match TcpStream::connect_timeout(&addr, Duration::from_secs(3)) {
@@ -1285,13 +1304,13 @@ pub fn tcp_exchange(addr: SocketAddr, segments: &[Vec<u8>], gap_ms: u64, mode: C
         }
         CloseMode::HalfClose => {
             let _ = s.shutdown(Shutdown::Write);
-            read_all(&mut s, &mut obs.stream, Duration::from_secs(4), &mut obs.reset);
+            read_all(&mut s, &mut obs.stream, TCP_REPLY_WAIT, &mut obs.reset);
         }
         CloseMode::KeepOpen => {
             let complete = matches!(tcp_delivered(&sent), Some((_, false)));
             if complete {
                 // the server has the whole message: whatever it answers must come now
-                read_all(&mut s, &mut obs.stream, Duration::from_secs(4), &mut obs.reset);
+                read_all(&mut s, &mut obs.stream, TCP_REPLY_WAIT, &mut obs.reset);
                 obs.early = obs.stream.len();
             } else {
                 let mut r = false;
@@ -1300,7 +1319,7 @@ pub fn tcp_exchange(addr: SocketAddr, segments: &[Vec<u8>], gap_ms: u64, mode: C
             }
             let _ = s.shutdown(Shutdown::Write);
             if !obs.reset {
-                read_all(&mut s, &mut obs.stream, Duration::from_secs(4), &mut obs.reset);
+                read_all(&mut s, &mut obs.stream, TCP_REPLY_WAIT, &mut obs.reset);
             }
         }
     }
